@@ -3,12 +3,10 @@
    is rejected, with a concrete fault position as witness. *)
 From MV Require Import C18.Model C18.Proofs C18.Instances.
 
-(* the recorded known findings: the API cannot / does not report the failure
-   44  muggle_socket_evloop_add_ctx returns void
-   305 muggle_log_complicated_init drops the result of muggle_log_file_time_rot_handler_init *)
+(* the recorded known finding: the API cannot report the failure
+   44  muggle_socket_evloop_add_ctx returns void *)
 Definition in_known_class_void_add_ctx (id : nat) : bool := Nat.eqb id 44.
-Definition in_known_class_complicated_init (id : nat) : bool := Nat.eqb id 305.
-Definition in_known_class (id : nat) : bool := in_known_class_void_add_ctx id || in_known_class_complicated_init id.
+Definition in_known_class (id : nat) : bool := in_known_class_void_add_ctx id.
 
 (* the property WITHOUT its "reports failure" clause - every other clause (no crash, nothing leaked, the failed call
    changed nothing, safe to destroy, safe to retry, destroy releases all) is kept; run_scn does not depend on s_reports *)
@@ -90,12 +88,11 @@ Lemma known_class_instances_hold id sc f :
 Proof.
   intros H1 H2. cbv zeta.
   assert (Ho : orig_id id = false).
-  { unfold in_known_class, in_known_class_void_add_ctx, in_known_class_complicated_init in H2.
-    apply orb_prop in H2. destruct H2 as [E|E]; apply Nat.eqb_eq in E; subst id; reflexivity. }
+  { unfold in_known_class, in_known_class_void_add_ctx in H2.
+    apply Nat.eqb_eq in H2; subst id; reflexivity. }
   assert (Hr : s_retains sc = false).
-  { unfold in_known_class, in_known_class_void_add_ctx, in_known_class_complicated_init in H2.
-    apply orb_prop in H2. destruct H2 as [E|E]; apply Nat.eqb_eq in E; subst id;
-      vm_compute in H1; inversion H1; reflexivity. }
+  { unfold in_known_class, in_known_class_void_add_ctx in H2.
+    apply Nat.eqb_eq in H2; subst id; vm_compute in H1; inversion H1; reflexivity. }
   pose proof (instances_hold_gen id sc f H1 Ho) as Hh. rewrite H2 in Hh.
   unfold holds in Hh. cbv zeta in Hh.
   change (run_scn (no_report sc) f) with (run_scn sc f) in Hh.
@@ -159,20 +156,24 @@ Proof.
   apply violates_not_holds. vm_compute. reflexivity.
 Qed.
 
-(* P_refuted of the second known finding: fopen of the time-rotating file fails, muggle_log_complicated_init
-   answers 0 *)
-Lemma complicated_init_refuted :
-  exists id sc k, in_known_class_complicated_init id = true /\ inst_by_id id = Some sc /\
-                  ~ holds sc (single k) /\ o_rc (run_scn sc (single k)) = Ok /\
-                  hit (single k) (o_att (run_scn sc (single k))) = true.
+(* muggle_log_complicated_init of the unchanged tree (id 195): the fopen of the time-rotating file fails and the call
+   answers 0 (refuted, like every id in 100..199, by table_orig_refuted; this is the named witness) *)
+Lemma log_complicated_init_orig_returns_success_on_failed_fopen :
+  let o := run_scn i_log_complicated_init_orig (single 0) in
+  hit (single 0) (o_att o) = true /\ o_rc o = Ok /\ ~ holds i_log_complicated_init_orig (single 0).
 Proof.
-  exists 305, i_log_complicated_init, 0. split; [reflexivity|]. split; [reflexivity|].
-  split; [apply violates_not_holds; vm_compute; reflexivity|]. split; vm_compute; reflexivity.
+  cbv zeta. split; [vm_compute; reflexivity|]. split; [vm_compute; reflexivity|].
+  apply violates_not_holds. vm_compute. reflexivity.
 Qed.
 
-(* ... and the proposed repair satisfies the full property *)
-Lemma complicated_init_fixed_wf : wf_scn i_log_complicated_init_fixed = true.
+Lemma log_complicated_init_orig_not_wf : wf_scn i_log_complicated_init_orig = false.
 Proof. vm_compute. reflexivity. Qed.
+
+(* the repaired function reports the failed fopen *)
+Example log_complicated_init_reports_failed_fopen :
+  let o := run_scn i_log_complicated_init (single 0) in
+  hit (single 0) (o_att o) = true /\ o_rc o = Fail /\ o_live o = [] /\ o_labels o = [86; 87; 90].
+Proof. vm_compute. repeat split; reflexivity. Qed.
 
 (* ---------- named witnesses for the defects of the unchanged code ---------- *)
 
